@@ -9,4 +9,4 @@ git -C $W apply /verif/seeded/$S/patch.diff || { echo "patch does not apply"; ex
 for sd in $SEEDS; do
   PYTHONPATH=$W:. PYTHONHASHSEED=0 PYTHONDONTWRITEBYTECODE=1 VERIF_SEED=$sd /venv/bin/python -m vf.run $C quick 2>&1 | grep -E "bucket=|seed=" | head -6
 done
-git -C $W reset -q --hard; git checkout -q -- evidence
+git -C $W reset -q --hard; git checkout -q -- ':(glob)evidence/*.json'
